@@ -411,7 +411,10 @@ func init() {
 					inside = mkAnd(slashFree(name), mkNot(mkEq(name, mkStr(".."))), mkNot(mkEq(name, mkStr("."))), mkNot(mkEq(name, mkStr(""))))
 				}
 			}
-			if inside == tFalse {
+			if inside == tFalse && f.path.Op == "cs" && pre.Op == "cs" {
+				name := strings.TrimPrefix(f.path.S, pre.S)
+				inside = mkBool(strings.HasPrefix(f.path.S, pre.S) && !strings.Contains(name, "/") && name != ".." && name != "." && name != "")
+			} else if inside == tFalse {
 				name := ex.freshVar("confname", SStr, "string", false)
 				inside = mkAnd(mkEq(f.path, mkConcat(pre, name)), mkNot(mkContains(name, mkStr("/"))), mkNot(mkEq(name, mkStr(".."))), mkNot(mkEq(name, mkStr("."))), mkNot(mkEq(name, mkStr(""))))
 			}
